@@ -59,7 +59,7 @@ def body(c):
                                   "world": w, "schedule": []})
     # seeded random documents over *all* fields (bigger than the exhaustive bound)
     dg = gqlgen.DocGen(ts, random.Random(c.seed + 17))
-    nrand = 1500 if c.quick else 30000
+    nrand = 1500 if c.quick else 20000
     rand_cases = []
     while len(rand_cases) < nrand:
         mut = rng.random() < 0.1
@@ -95,7 +95,7 @@ def body(c):
                 return False
             dup(doc["ops"][0]["sels"]) or any(dup(f["sels"]) for f in doc["frags"] if f["name"] != fr["name"])
         rand_cases.append({"id": 0, "flavour": "static", "doc": doc, "opIndex": op_index, "vars": supplied, "world": rng.choice(worlds), "schedule": []})
-    case_cap = 6000 if c.quick else 200000
+    case_cap = 6000 if c.quick else 110000
     if len(cases) > case_cap:
         cases = rng.sample(cases, case_cap)
         exhaustive = False
